@@ -55,6 +55,10 @@ pub struct Config {
     pub te: EdgeMethod,
     /// None = detect; Some(sign): upper direction given as the true upper normal times sign (+1) or reversed (-1)
     pub upper_dir: Option<bool>,
+    /// for orientation by direction: the given direction is the true forward direction turned by this angle (radians,
+    /// |angle| well below a quarter turn, so it still points towards the leading edge)
+    #[serde(default)]
+    pub dir_off: f64,
 }
 
 #[derive(Clone, Debug, Serialize, Deserialize)]
@@ -76,7 +80,7 @@ impl Property for C10 {
         "a case is a section generated as the envelope of circles of radius r(u) centred on a parabolic camber curve c(u) (chord 0.5..100, camber height 0-12 % chord, edge radii 0.5-3 %, maximum half-thickness 3-12 % at 25-45 % chord, 150-1200 vertices with uniform or uneven density, any pose, both windings, any start vertex; open sections have 2-5 % of the chord cut away at one end), an analysis configuration (orientation by maximum thickness or by direction; every edge-location method; upper side detected or given) and a second pose. By construction the medial axis is c, extended to the edge points, and the inscribed radius follows r. Oracle: clauses (1)-(6) of DESIGN.md C10: inscribed circles, monotone stations from leading to trailing edge, edge points on the section, upper/lower partition, recovery of camber / radius law / maximum thickness, equivariance under rigid motion / reversal / start rotation, termination under a 60 s deadline. Non-trivial: camber height >= 2 % and (chord outside [0.8, 1.25] or a non-identity pose). Distinct = distinct canonical JSON."
     }
     fn cases(t: Tier) -> u32 {
-        t.pick(6_000, 200_000)
+        t.pick(12_000, 200_000)
     }
     fn isolated() -> Option<Duration> {
         Some(Duration::from_secs(60))
@@ -87,8 +91,8 @@ impl Property for C10 {
     fn strategy(_t: Tier) -> BoxedStrategy<Case> {
         let section = (logu(-0.3, 2.0), prop_oneof![3 => unif(0.0, 0.12), 1 => unif(0.12, 0.45)], unif(0.005, 0.03), unif(0.005, 0.03), unif(0.03, 0.12), unif(0.2, 0.95), 75usize..600, prop_oneof![Just(1.0), unif(1.0, 2.0)], iso2(100.0), any::<bool>(), any::<u16>(), prop_oneof![4 => Just(None), 1 => (unif(0.02, 0.05), any::<bool>()).prop_map(Some)])
             .prop_map(|(chord, camber, r_le, r_te, t_max, p, n_side, density, pose, reverse, start, open)| Section { chord, camber, r_le, r_te, t_max, p, n_side, density, pose, reverse, start, open });
-        (section, any::<bool>(), closed_method(), closed_method(), prop::option::of(any::<bool>()), any::<bool>(), iso2(50.0))
-            .prop_map(|(section, orient_by_direction, le, te, upper_dir, gap, t)| {
+        (section, any::<bool>(), closed_method(), closed_method(), prop::option::of(any::<bool>()), any::<bool>(), iso2(50.0), prop_oneof![2 => Just(0.0), 1 => unif(-1.3, 1.3)])
+            .prop_map(|(section, orient_by_direction, le, te, upper_dir, gap, t, dir_off)| {
                 let (mut le, mut te) = (le, te);
                 if let Some((_, at_le)) = section.open {
                     let m = if gap { EdgeMethod::OpenIntersectGap } else { EdgeMethod::Open };
@@ -99,7 +103,7 @@ impl Property for C10 {
                     }
                 }
                 // orientation by maximum thickness cannot be relied on when the leading end is cut away
-                Case { section, config: Config { orient_by_direction, le, te, upper_dir }, t }
+                Case { section, config: Config { orient_by_direction, le, te, upper_dir, dir_off }, t }
             })
             .boxed()
     }
@@ -279,7 +283,7 @@ fn method_label(prefix: &str, m: EdgeMethod) -> &'static str {
 }
 
 fn analyze(curve: &Curve2, tau: f64, cfg: &Config, truth: &Truth) -> Result<Result<AirfoilGeometry, String>, String> {
-    let orient: Box<dyn engeom::airfoil::CamberOrient> = if cfg.orient_by_direction { DirectionFwd::make(truth.forward) } else { TMaxFwd::make() };
+    let orient: Box<dyn engeom::airfoil::CamberOrient> = if cfg.orient_by_direction { let (sn, cs) = cfg.dir_off.sin_cos(); DirectionFwd::make(Vector2::new(cs * truth.forward.x - sn * truth.forward.y, sn * truth.forward.x + cs * truth.forward.y)) } else { TMaxFwd::make() };
     let face = match cfg.upper_dir {
         None => FaceOrient::Detect,
         Some(_) => FaceOrient::UpperDir(truth.upper),
@@ -315,6 +319,7 @@ fn check(case: &Case) -> Verdict {
     cx.label(if s.chord < 1.0 { "chord<1" } else { "chord>1" });
     cx.label(method_label("le", case.config.le));
     cx.label(if case.config.orient_by_direction { "orient_direction" } else { "orient_tmax" });
+    cx.label_if(case.config.orient_by_direction && case.config.dir_off.abs() > 0.8, "orient_direction_oblique");
     cx.label(if case.config.upper_dir.is_some() { "face_given" } else { "face_detect" });
     let class = format!("{:?}+{:?}", case.config.le, case.config.te);
     let geom = match analyze(&curve, tau, &case.config, &truth) {
